@@ -364,9 +364,64 @@ def has_meas_after_noise(log, seq):
     return m_noise, m_loss
 
 
+def placement_oracle(res, im, n_photon, noise_sim, inp, be):
+    """clause (a) evaluated on the implementation's own log (no model): with noise on, every non-NoNoise additive noise attached to a
+    one-qubit gate / CNOT / CZ is applied exactly once, on the qubit it addresses, before its gate iff its `After gate` flag is False;
+    with noise off nothing is applied"""
+    import graphiq.circuit.ops as ops
+    import graphiq.noise.noise_models as nm
+
+    log = im["log"]
+    if not noise_sim:
+        if any(e[0] in ("n", "rn") for e in log):
+            res.violation("switch-off:noise-applied", "a noise model was applied although noise_simulation is False", input=inp, backend=be)
+        return
+    if "err" in im:
+        return
+    pos_gate = {e[1]: i for i, e in enumerate(log) if e[0] == "g"}
+    for k, op in enumerate(im["seq"]):
+        if not isinstance(op, (ops.OneQubitOperationBase, ops.ControlledPairOperationBase)):
+            continue
+        if isinstance(op, ops.ControlledPairOperationBase):
+            pairs = [(op.noise[0], op.control, op.control_type), (op.noise[1], op.target, op.target_type)]
+        else:
+            pairs = [(op.noise, op.register, op.reg_type)]
+        for noise, reg, rt in pairs:
+            if isinstance(noise, nm.NoNoise) or not isinstance(noise, nm.AdditionNoiseBase):
+                continue
+            q = reg if rt == "p" else reg + n_photon
+            # a noise object may be shared by several operations (noise maps): count the applications adjacent to this gate
+            gi = pos_gate.get(k)
+            if gi is None:
+                continue
+            lo = gi
+            while lo > 0 and log[lo - 1][0] == "n":
+                lo -= 1
+            hi = gi
+            while hi + 1 < len(log) and log[hi + 1][0] == "n":
+                hi += 1
+            before = [e for e in log[lo:gi] if e[1] == id(noise) and e[2] == (q,)]
+            after = [e for e in log[gi + 1:hi + 1] if e[1] == id(noise) and e[2] == (q,)]
+            want_after = bool(noise.noise_parameters["After gate"])
+            # neighbouring operations may legitimately contribute applications of a *shared* object to the same run of 'n' events, so
+            # only the side is demanded strictly when the object is attached once in the whole sequence
+            shared = sum(1 for o in im["seq"] for x in (o.noise if isinstance(o.noise, list) else [o.noise]) if x is noise) > 1
+            if shared:
+                ok = (len(after) >= 1) if want_after else (len(before) >= 1)
+            else:
+                ok = (len(after) == 1 and not before) if want_after else (len(before) == 1 and not after)
+                ok = ok and sum(1 for e in log if e[0] == "n" and e[1] == id(noise)) == 1
+            if not ok:
+                res.violation("placement:wrong-side-or-count", "an attached additive noise is not applied exactly once on the side its 'After gate' "
+                              "flag asks for", input=inp, backend=be, op=k, kind=type(op).__name__, after_flag=want_after,
+                              before=len(before), after=len(after))
+                return
+
+
 F_RENORM = "dm:measurement-after-loss:trace-renormalised"
 F_BRANCH = "mixture:measurement-after-noise:per-branch-outcomes"
 F_D37 = "stab:loss-rate-1:depolarizing:empty-mixture"
+F_MIXCONV = "infidelity:dm-target:mixture-state:raises"
 
 
 def check_case(res, drv, spec, mk_circ, det, noise_sim, tag, ref_clean=None):
@@ -409,6 +464,8 @@ def check_case(res, drv, spec, mk_circ, det, noise_sim, tag, ref_clean=None):
                             model=rep.get("trace", "")[:400])
         res.traces_validated += 1
         res.branch([f"trace-len:{min(len(got) // 5 * 5, 40)}"])
+    for be in ("dm", "stab"):
+        placement_oracle(res, impl[be], spec["np"], noise_sim, inp, be)
     # ---------------------------------------------------------------------------- states
     dm_ok = "state" in impl["dm"] and reps["dm"]["_status"] == "ok"
     st_ok = "state" in impl["stab"] and reps["stab"]["_status"] == "ok"
@@ -612,7 +669,68 @@ def check_assign(res, drv, spec, m):
         impl = "err:" + err_class(e)
     if rep["_status"] != "ok" or rep.get("noises") != impl:
         res.exact_break("_noisy_gates", input=dict(spec=repr(spec), map=repr(m)), impl=impl[:400], model=rep["_raw"][:400])
+    # direct oracle (no model): what the map says, operation by operation
+    if not impl.startswith("err"):
+        import graphiq.circuit.ops as ops
+
+        for o, got_tok in zip(slim, impl.split(",")):
+            if isinstance(o, ops.OneQubitGateWrapper):
+                want = sorted(spec_token(m[o.reg_type].get(KIND_OF_CLASS[c.__name__], ("N",))) for c in o.operations)
+                ok = sorted(got_tok.split("+")) == want          # D12: the pairing order inside a wrapper is not demanded
+            elif isinstance(o, (ops.ControlledPairOperationBase, ops.ClassicalControlledPairOperationBase)):
+                ent = m.get(o.control_type + o.target_type, {}).get(KIND_OF_CLASS[type(o).__name__], ("N",))
+                want = [spec_token(x) for x in ent] if isinstance(ent, list) else [spec_token(ent)] * 2
+                ok = got_tok.split("+") == want
+            else:
+                ent = m[o.reg_type].get(KIND_OF_CLASS.get(type(o).__name__, "?"), ("N",))
+                ok = got_tok == spec_token(ent)
+            if not ok:
+                res.violation("assign_noise:wrong-noise", "assign_noise attached a noise that is not the one the map gives for this (register type, gate type)",
+                              input=dict(spec=repr(spec), map=repr(m)), op=type(o).__name__, got=got_tok, want=str(want) if not isinstance(want, str) else want)
+                break
     return real
+
+
+def check_unwrap_identify(res, drv, rng):
+    """`OneQubitGateWrapper.unwrap()` with a noise list and `SolverBase._identify_noise` / `_wrap_noise` against the model"""
+    import graphiq.circuit.ops as ops
+    from graphiq.solvers.solver_base import SolverBase
+
+    cls = _classes()
+    # unwrap
+    kinds = [rng.choice(ONEQ[:6]) for _ in range(rng.randint(1, 4))]
+    specs = [gen_noise(rng, p_none=0.3) for _ in kinds]
+    w = ops.OneQubitGateWrapper([cls[k] for k in kinds], register=0, reg_type="e", noise=[mk_noise(x) for x in specs])
+    got = ",".join(f"{KIND_OF_CLASS[type(o).__name__]}={noise_token(o.noise)}" for o in w.unwrap())
+    rep = drv.ask(f"noise.unwrap ops={'.'.join(kinds)} noise={'+'.join(spec_token(x) for x in specs)}")
+    res.evaluations += 1
+    if rep.get("seq") != got:
+        res.exact_break("OneQubitGateWrapper.unwrap", input=dict(kinds=kinds, noise=repr(specs)), impl=got, model=rep["_raw"][:300])
+    # direct oracle: the k-th listed operation keeps the k-th listed noise, application order = reversed list
+    want = ",".join(f"{k}={spec_token(x)}" for k, x in reversed(list(zip(kinds, specs))))
+    if got != want:
+        res.violation("unwrap:noise-misplaced", "unwrap() does not keep each sub-operation with its own noise in application order",
+                      input=dict(kinds=kinds, noise=repr(specs)), got=got, want=want)
+    # _identify_noise / _wrap_noise
+    mp_spec = {}
+    for k in ONEQ[:6] + ["cnot", "cz"]:
+        if rng.random() < 0.5:
+            mp_spec[CLASS_NAME[k]] = gen_noise(rng, p_none=0.1)
+    for suffix in ("_control", "_target"):
+        if rng.random() < 0.5:
+            mp_spec["CNOT" + suffix] = gen_noise(rng, p_none=0.0)
+    real = {k: mk_noise(v) for k, v in mp_spec.items()}
+    probe = ONEQ[:6] + ["cnot", "cz"]
+    inst = rng.random() < 0.5
+    got = []
+    for k in probe:
+        arg = cls[k]() if inst else cls[k]
+        got.append(noise_token(SolverBase._identify_noise(None, arg, real)))
+    enc = ";".join(f"{KIND_OF_CLASS.get(k.split('_')[0], k.split('_')[0])}{'_' + k.split('_')[1] if '_' in k else ''}={spec_token(v)}" for k, v in mp_spec.items())
+    rep = drv.ask(f"noise.identify map={enc or '-'} ops={','.join(probe)}")
+    res.evaluations += 1
+    if rep.get("noises") != ",".join(got):
+        res.exact_break("_identify_noise", input=dict(map=repr(mp_spec), instances=inst), impl=",".join(got), model=rep["_raw"][:300])
 
 
 def placement_grid():
@@ -688,7 +806,17 @@ def infidelity_check(res, spec, det, rng):
     if abs(v_s - ref_m) > 1e-9 or abs(v_d - ref_d) > 1e-9:
         res.violation("infidelity:wrong-value", "Infidelity differs from the overlap computed independently", input=dict(spec=repr(spec), det=det),
                       stab=float(v_s), stab_ref=ref_m, dm=float(v_d), dm_ref=ref_d)
-    elif abs(v_s - v_d) > 1e-9:
+    # the remaining representation pair: density-matrix target, mixture state (goes through stabilizer_to_density on a list)
+    try:
+        v_x = float(Infidelity(QuantumState(sig.copy(), rep_type="dm")).evaluate(b["state"], None))
+        res.evaluations += 1
+        if abs(v_x - ref_m) > 1e-9 and not np.any([np.any(np.asarray(t.phase)[n:]) for _, t in mix]):
+            res.violation("infidelity:dm-target:mixture-state:wrong-value", "Infidelity (density-matrix target, mixture state) differs from the overlap",
+                          input=dict(spec=repr(spec), det=det), value=v_x, expected=ref_m)
+    except Exception as e:  # noqa: BLE001
+        res.violation(F_MIXCONV, "Infidelity with a density-matrix target raises on a mixed-stabilizer state (stabilizer_to_density builds rho for "
+                      "a list of (p, tableau) but never returns it)", input=dict(spec=repr(spec), det=det), error=repr(e)[:160])
+    if abs(v_s - v_d) > 1e-9:
         m_noise, _ = has_meas_after_noise(b["log"], b["seq"])
         res.violation(F_BRANCH if m_noise else "infidelity:backends-differ", "Infidelity with a pure stabilizer target differs between the backends",
                       input=dict(spec=repr(spec), det=det), stab=float(v_s), dm=float(v_d))
@@ -705,12 +833,22 @@ def replay(ctx, data):
     res = Result()
     drv = Driver()
     det = inp.get("det", 1)
+    if inp.get("map"):
+        m = eval(inp["map"], {"Fraction": Fr})  # noqa: S307
+        check_assign(res, drv, spec, m)
+        check_case(res, drv, spec, lambda: build(spec, clean=True)[0].assign_noise(realise_map(m)), det, True, "replay-map")
     check_case(res, drv, spec, lambda: build(spec)[0], det, inp.get("noise_sim", True), "replay")
     check_case(res, drv, spec, lambda: build(spec, transform=zero_of)[0], det, True, "replay-zero")
     drv.close()
+    from harness.common import load_known_findings
+
+    known = [k for k, _ in load_known_findings("C06")]
+    fresh = [w for w in res.violations if w["key"] not in known]
     for w in res.violations:
-        print("replay:", w["key"], "-", w["clause"])
-    return not res.violations and not res.exact_breaks
+        print("replay:", "(known finding)" if w["key"] in known else "", w["key"], "-", w["clause"])
+    for b in res.exact_breaks[:3]:
+        print("replay: model/implementation differ:", b.get("correspondence"))
+    return not fresh and not res.exact_breaks
 
 
 def search(ctx, res, proof_broken):
@@ -727,20 +865,37 @@ def search(ctx, res, proof_broken):
     for k in range(300):
         spec = gen_circuit(rng, False, with_meas=False, nmax=3)
         check_case(res, drv, spec, lambda: build(spec)[0], rng.randint(0, 1), True, "search-random")
-        if [v for v in res.violations if v["key"] not in (F_RENORM, F_BRANCH, F_D37)]:
+        if [v for v in res.violations if v["key"] not in (F_RENORM, F_BRANCH, F_D37, F_MIXCONV)]:
             break
     drv.close()
 
 
+def _limit_known(res, keys, cap=3):
+    """known-finding violations are recorded at most `cap` times each, so that they can never fill the violation list and hide a new one"""
+    orig = res.violation
+    seen = {}
+
+    def violation(key, clause, **kw):
+        if key in keys:
+            seen[key] = seen.get(key, 0) + 1
+            res.extra.setdefault("known_finding_hits", {})[key] = seen[key]
+            if seen[key] > cap:
+                return
+        orig(key, clause, **kw)
+
+    res.violation = violation
+
+
 def run(ctx):
     res = Result()
+    _limit_known(res, (F_RENORM, F_BRANCH, F_D37, F_MIXCONV))
     res.rule = ("one evaluation = one compile of one circuit on one backend with one switch setting; non-trivial = the circuit carries at "
                 "least one non-NoNoise noise and at least one two-qubit or measurement operation; distinct by (encoded sequence, backend, switches)")
     drv = Driver()
     rng = ctx.rng
-    n_circ = 45 if ctx.quick else 500
+    n_circ = 90 if ctx.quick else 900
     for ci in range(n_circ):
-        nmax = 3 if (ctx.quick and ci % 3) else 4
+        nmax = (3 if ci % 3 else 4) if ctx.quick else (5 if ci % 12 == 0 else 4 if ci % 2 else 3)
         spec = gen_circuit(rng, ctx.quick, with_meas=(ci % 3 != 0), nmax=nmax)
         det = rng.randint(0, 1)
         r_on, impl, reps = check_case(res, drv, spec, lambda: build(spec)[0], det, True, "noise-on")
@@ -774,7 +929,7 @@ def run(ctx):
     res.notes.append("placement decision tree: all 7x7 (control, target) noise/placement pairs on CNOT and CZ and all 7 single-noise cases "
                      "are enumerated on every run (exhaustive for the additive-noise domain of the tree)")
     # ---- noise maps through assign_noise
-    n_maps = 25 if ctx.quick else 250
+    n_maps = 50 if ctx.quick else 400
     for mi in range(n_maps):
         spec = gen_circuit(rng, ctx.quick, with_meas=(mi % 4 == 0), nmax=3)
         for o in spec["ops"]:
@@ -794,6 +949,8 @@ def run(ctx):
                 res.violation("empty-map:noise-applied", "a noise model was applied although the noise map is empty", input=dict(spec=repr(spec)))
             if not states_equal(r_map, r_clean):
                 res.violation("empty-map:state-differs", "an empty noise map does not reproduce the noiseless state", input=dict(spec=repr(spec), det=det))
+    for _ in range(20 if ctx.quick else 200):
+        check_unwrap_identify(res, drv, rng)
     # ---- malformed stream
     for spec in malformed_specs(rng):
         check_malformed(res, drv, spec)
